@@ -3,6 +3,8 @@
 set -e
 cd "$(dirname "$0")"
 mkdir -p evidence replay .work corpus
+export PYTHONPATH=/repo/src PYTHONHASHSEED=0 PYTHONWARNINGS=ignore
+/venv/bin/python -B harness/translate_all.py || true
 cd coq
 find . -name '*.v' | sed 's|^\./||' | sort > .filelist.tmp
 coq_makefile -f _CoqProject -o Makefile $(cat .filelist.tmp) > /dev/null
